@@ -19,7 +19,7 @@ WHERE = ('start-1', 'start', 'start+1', 'mid_elem', 'mid_row', 'end-1', 'end')
 BIG = 16384
 
 
-from .arrayhist import Boom as _Boom, failing_iterable as _iterable   # noqa
+from .arrayhist import Boom as _Boom, Interrupt as _Interrupt, failing_iterable as _iterable   # noqa
 
 
 # =============================================================================
@@ -81,6 +81,7 @@ class ArrayAppendFault(AH.ArrayHistory):
             else:
                 fault['pos'] = rng.randint(0, n)
             fault['empty_bad'] = rng.random() < 0.25
+            fault['base'] = rng.random() < 0.35      # the iterable raises a BaseException that is not an Exception
         elif kind == 'efbig_kernel':
             fault['chunk'] = rng.randint(0, max(0, n - 1))
             fault['where'] = rng.choice(WHERE)
@@ -291,7 +292,9 @@ class _FState(AH._State):
                 expect_j = 1 if not must_raise else expect_j
             call = lambda: self.h.append(arg)   # noqa
         else:
-            it = _iterable(objs, how, raise_at)
+            it = _iterable(objs, how, raise_at, _Interrupt if f.get('base') else _Boom)
+            if raise_at is not None and f.get('base'):
+                self.probe('iterable_raised_non_Exception')
             call = lambda: self.h.iterappend(it)   # noqa
         exc = None
         try:
@@ -303,7 +306,7 @@ class _FState(AH._State):
                     call()
             else:
                 call()
-        except Exception as e:   # noqa
+        except (Exception, _Interrupt) as e:   # noqa
             exc = e
         if plan is not None:
             if plan.engaged == 0:
@@ -442,6 +445,7 @@ class RaggedAppendFault(RH.RaggedHistory):
             else:
                 fault['pos'] = rng.randint(0, n)
             fault['empty_bad'] = rng.random() < 0.25
+            fault['base'] = rng.random() < 0.35
         elif kind == 'index_overflow':
             fault['pos'] = rng.randint(0, max(0, n - 1))
         elif kind.startswith('efbig'):
@@ -676,7 +680,9 @@ class _RFState(RH._RState):
                     expect_j = 1
             call = lambda: self.h.append(arg)   # noqa
         else:
-            it = _iterable(objs, op.get('as', 'list'), raise_at)
+            it = _iterable(objs, op.get('as', 'list'), raise_at, _Interrupt if f.get('base') else _Boom)
+            if raise_at is not None and f.get('base'):
+                self.probe('iterable_raised_non_Exception')
             call = lambda: self.h.iterappend(it)   # noqa
         exc = None
         try:
@@ -688,7 +694,7 @@ class _RFState(RH._RState):
                     call()
             else:
                 call()
-        except Exception as e:   # noqa
+        except (Exception, _Interrupt) as e:   # noqa
             exc = e
         if plan is not None:
             if plan.engaged == 0:
